@@ -126,6 +126,10 @@ def c07(case, diff, o, v):
         # inside it change the columns found (tokens glued / mis-grouped as under KF-30c)
         if _feat(case)["select_has_subquery"]:
             return "KF-13"
+    if case.get("dialect") != "non-validating" and kinds & {"upper", "swap", "mixed", "lower"} and diff == ["column_pairs"]:
+        # KF-13 again: the nested run is the legacy analyzer, whose CAST(... AS type(n)) handling depends on letter case (KF-30b)
+        if _feat(case)["select_has_subquery"] and _re.search(r"(?i)\bcast\s*\(", case.get("sql", "")) and _re.search(r"(?i)\bas\s+[a-z_]+\s*\(", case.get("sql", "")):
+            return "KF-13"
     if case.get("dialect") == "non-validating":
         # the legacy sqlparse analyzer is layout sensitive in three separate ways
         if kinds & _COMMENT_KINDS:
